@@ -9,7 +9,7 @@ from engines.arena_prop import run_arena_property
 
 def run(ctx):
     return run_arena_property(ctx, ["BumpProof.Props.C17", "BumpProof.Props.C17Family"],
-        runs_quick=[("entry", 200, 100)],
+        runs_quick=[("entry", 700, 100)],
         runs_thorough=[("entry", 8000, 200), ("general", 2000, 200)],
         fields=(0, 2, 3),
         note="hint-independence / wrapper-forwarding theorems on the model + lock-step-by-model correspondence over all entry points + typed-vs-dyn reserve oracle")
